@@ -70,3 +70,8 @@ proof fn lits_endpoints()
     reveal_strlit("168.63.129.16"); reveal_strlit("169.254.169.254"); reveal_strlit("127.0.0.1");
     assert("168.63.129.16"@.len() == 13); assert("169.254.169.254"@.len() == 15); assert("127.0.0.1"@.len() == 9);
 }
+
+// the reply of the key-keeper actor to "give me the rules of endpoint e" during this request: uninterpreted,
+// so every result holds for every rule set in force (DESIGN 2.3 "one uninterpreted policy in force per request")
+pub uninterp spec fn rules_reply(s: shared_state::key_keeper_wrapper::KeyKeeperSharedState, e: Endpoint)
+    -> common::result::Result<Option<proxy::authorization_rules::ComputedAuthorizationItem>>;
